@@ -111,7 +111,7 @@ def history_scenario(prog, nops, stats, share_meta=False):
         obs["cache_keys"] = sorted((k["tenant"], k["group"], k["data_id"]) for k in actor["cache"])
         obs["notified"] = [list(actor["listener"].notified), list(actor["subscriber"].notified)]
         return obs
-    paths = it.explore(thunk, max_paths=60000)
+    paths = it.explore(thunk, max_paths=400000)
     stats["paths"] += len(paths)
     stats["queries"] += it.queries
     stats["opaque"] = sorted(it.opaque_seen)
@@ -405,7 +405,10 @@ def run(tier, seed, only_c19=False):
           "encodes_files": FILES, "bound": "every history of %d operations over {publish, remove} x 2 keys; contents, type, description arbitrary strings; optional history table id" % nops,
           "queries": 0, "solver_s": 0.0, "distinct": 0}
     try:
-        paths, sym = history_scenario(prog, nops, stats, share_meta=(tier == "quick"))
+        # the sequence clause (C19) does not depend on type / description: they are tied together there at every tier
+        # type and description are tied together (both present or both absent) in the long histories; the thorough tier adds a 3-operation
+        # obligation in which they are independent (s09_1b)
+        paths, sym = history_scenario(prog, nops, stats, share_meta=True)
         if only_c19:
             viol, nq = check_sequence(paths, sym, nops, timer)
         else:
@@ -439,11 +442,32 @@ def run(tier, seed, only_c19=False):
     except rsparse.Unsupported as e:
         ob.update({"verdict": "inconclusive", "message": "encoder met source it cannot encode: %s" % e})
     obligations.append(ob)
+    if not only_c19 and tier != "quick":
+        ob2 = {"engine": "smt", "harness": "s09_1b_history_independent_meta", "encodes": ob["encodes"], "encodes_files": FILES,
+               "bound": "every history of 3 operations over {publish, remove} x 2 keys; type and description present independently", "queries": 0, "solver_s": 0.0, "distinct": 0}
+        try:
+            st2 = {"paths": 0, "queries": 0}
+            tm2 = [0.0]
+            p2, sym2 = history_scenario(prog, 3, st2, share_meta=False)
+            v2, nq2 = check_history(p2, sym2, 3, tm2)
+            ob2["queries"] = st2["queries"] + nq2
+            ob2["solver_s"] = round(tm2[0], 2)
+            ob2["sample"] = {"paths_explored": st2["paths"]}
+            if v2 is None:
+                ob2.update({"verdict": "discharged", "distinct": nq2})
+            elif v2.get("inconclusive"):
+                ob2.update({"verdict": "inconclusive", "message": v2["message"]})
+            else:
+                ob2.update({"verdict": "violation", "message": v2["message"], "tags": v2["tags"], "counterexample": v2["model"], "_ops": v2.get("ops")})
+        except rsparse.Unsupported as e:
+            ob2.update({"verdict": "inconclusive", "message": "encoder met source it cannot encode: %s" % e})
+        obligations.append(ob2)
     if not only_c19:
         obligations.append(history_bound_obligation(prog))
         obligations.append(paging_obligation(prog, tier))
-        from . import c09filter
+        from . import c09filter, c09import
         obligations.append(c09filter.run(tier, seed))
+        obligations.append(c09import.run(tier, seed))
     from lib import native
     import os
     from .common import native_histories
